@@ -162,3 +162,188 @@ static RegisterProperty reg_c04(PropertyDef{
     q_real(), q_stubs(), q_assume(), "hash over messages of (phase, #pending, #done, accepted) at end of run", 1500, 60000});
 
 }  // namespace sim
+
+// ------------------------------------------------------------------------------------------------ C01: injection sweep
+namespace sim {
+
+static std::string mk_env(const std::string &sender, const std::vector<std::string> &rcpts) {
+  std::string e = "F" + sender; e.push_back('\0');
+  for (auto &r : rcpts) { e += "T" + r; e.push_back('\0'); }
+  e.push_back('\0'); return e;
+}
+
+// input j -> (body_len, body_seed, env_raw)
+static void c01_input(uint64_t seed, uint64_t j, bool small, Json &inj, std::string &desc) {
+  Rng r(mix64(seed ^ 0x1c01, j));
+  static const int64_t sizes_small[] = {0, 1, 69, 186, 187, 188, 255, 256, 257, 700, 1023};
+  static const int64_t sizes_big[] = {2047, 2048, 2049, 1978, 1979, 1980, 4096, 8191, 8192, 8193, 8122, 8123, 8124, 20000};
+  int64_t blen = small ? sizes_small[j % 11] : (r.chance(0.7) ? sizes_big[r.below(14)] : r.range(0, 20000));
+  if (!small && j % 5 == 4) blen = r.range(0, 3000);
+  inj = Json::obj(); inj.set("op", "inject").set("id", "m1").set("body_len", (long long)blen).set("body_seed", (long long)r.below(100000));
+  int ek = (int)(j % 12);
+  std::vector<std::string> rc; int nr = (int)r.range(0, 6);
+  for (int q = 0; q < nr; q++) rc.push_back("u" + std::to_string(q) + (r.chance(0.5) ? "@l.example" : "@r.example"));
+  std::string sender = r.chance(0.2) ? "" : "s@x.example";
+  std::string env = mk_env(sender, rc); desc = "valid envelope, " + std::to_string(nr) + " recipients";
+  auto longaddr = [&](size_t n) { return std::string(n, 'a'); };
+  switch (ek) {
+    case 1: { size_t n = 1001 + r.below(4); rc.push_back(longaddr(n)); env = mk_env(sender, rc); desc = "recipient of " + std::to_string(n) + " bytes"; break; }
+    case 2: { size_t n = 1001 + r.below(4); env = mk_env(longaddr(n), rc); desc = "sender of " + std::to_string(n) + " bytes"; break; }
+    case 3: env[0] = r.chance(0.5) ? 'T' : 'f'; desc = "wrong sender letter"; break;
+    case 4: if (nr) { size_t p = env.find("T"); env[p] = r.chance(0.5) ? 'F' : 'X'; desc = "wrong recipient letter"; } break;
+    case 5: env.resize(env.size() - 1); desc = "missing final NUL"; break;
+    case 6: env = r.chance(0.5) ? std::string() : std::string(1, '\0'); desc = "empty / NUL-only envelope"; break;
+    case 7: env.resize(r.below(env.size())); desc = "envelope cut at " + std::to_string(env.size()); break;
+    case 8: env += "garbage after terminator"; desc = "bytes after terminator"; break;
+    case 9: { rc.push_back(""); env = mk_env(sender, rc); desc = "empty recipient"; break; }
+    default: break;
+  }
+  inj.set("env_raw", env).set("sender", sender); Json ra = Json::arr(); for (auto &x : rc) ra.push(x); inj.set("rcpts", ra);
+  static const char *users[] = {"user1", "alias", "qmaild", "qmails", "user2"};
+  inj.set("user", users[r.below(5)]);
+}
+
+static bool gen_c01(uint64_t seed, const std::string &tier, uint64_t i, Plan &p) {
+  const uint64_t K = 44;                // call sites swept per input
+  const uint64_t V = 1 + 6 * K + 8 + 7; // variants per input
+  uint64_t ninputs = tier == "quick" ? 10 : 400;
+  uint64_t j = i / V, v = i % V;
+  p = Plan(); p.property = "C01"; p.world = "Q"; p.seed = mix64(mix64(seed, 0xC01), i);
+  Rng r(p.seed);
+  bool sweep = j < ninputs;
+  p.knobs.set("oracles", oracle_list({"c01"}));
+  Json inj; std::string desc;
+  if (sweep) {
+    c01_input(seed, j, true, inj, desc);
+    // fixed, simple environment for the sweep: the schedule is not the subject here
+    p.knobs.set("stick", 1.0).set("split_p", (j % 2) ? 0.5 : 0.0).set("ino_policy", (int)(j % 3)).set("dir_shuffle_p", 0.0);
+    bool daemon = (j % 3) == 0;
+    if (daemon) p.ops.push(Json::obj().set("op", "boot")), p.ops.push(Json::obj().set("op", "settle").set("max_s", 5));
+    inj.set("wait", true);
+    p.ops.push(inj);
+    Fault f; f.actor = "qmail-queue#1"; f.call = C_ANY;
+    std::string what = "fault-free";
+    if (v >= 1 && v < 1 + 6 * K) {
+      uint64_t kind = (v - 1) / K, site = (v - 1) % K + 1; f.nth = (int)site;
+      switch (kind) {
+        case 0: f.kind = "error"; f.err = (site % 2) ? EIO : ENOSPC; what = "error"; break;
+        case 1: f.kind = "kill"; what = "kill"; break;
+        case 2: f.kind = "crash"; f.image = "worst"; what = "crash/worst"; break;
+        case 3: f.kind = "crash"; f.image = "random"; what = "crash/random"; break;
+        case 4: f.kind = "signal"; f.arg = 14; what = "SIGALRM"; break;
+        case 5: f.kind = "short"; f.arg = 1 + (int64_t)(site % 3); what = "short-io"; break;
+      }
+      p.faults.push_back(f);
+      what += "@call" + std::to_string(site);
+      if ((kind == 1 || kind == 2 || kind == 3) && (site % 4) == 0) {
+        // follow the leftovers: the daemon must collect them after 36 h (+ at most two cleanup periods)
+        p.ops.push(Json::obj().set("op", "boot"));
+        p.ops.push(Json::obj().set("op", "sleep").set("s", 129600 + 2 * 76431 + 200));
+        p.ops.push(Json::obj().set("op", "settle").set("max_s", 100));
+        p.knobs.set("expect_gc", true).set("max_sim_s", 1000000);
+        what += "+gc";
+      } else if (kind == 2 || kind == 3) { p.ops.push(Json::obj().set("op", "boot")); p.ops.push(Json::obj().set("op", "settle").set("max_s", 10000)); }
+    } else if (v >= 1 + 6 * K && v < 1 + 6 * K + 8) {
+      f.call = C_MALLOC; f.nth = (int)(v - 6 * K); f.kind = "null"; p.faults.push_back(f); what = "alloc-fail#" + std::to_string(f.nth);
+    } else if (v >= 1 + 6 * K + 8) {
+      // two faults
+      Fault a = f, b = f; a.nth = (int)r.range(1, 30); a.kind = "short"; a.arg = 1; b.nth = (int)r.range(1, 30); b.kind = r.chance(0.5) ? "error" : "kill"; b.err = EIO;
+      p.faults.push_back(a); p.faults.push_back(b); what = "double-fault";
+    }
+    p.label = "sweep input " + std::to_string(j) + " (" + desc + ", body " + std::to_string(inj.geti("body_len")) + "): " + what;
+    return true;
+  }
+  // random multi-fault plans with bigger bodies, concurrent injectors and a live daemon
+  uint64_t rmax = tier == "quick" ? 600 : 60000;
+  if (i - ninputs * V >= rmax) return false;
+  base_knobs(r, p, false);
+  if (r.chance(0.6)) p.ops.push(Json::obj().set("op", "boot"));
+  int ninj = (int)r.range(1, 3);
+  for (int q = 0; q < ninj; q++) {
+    c01_input(p.seed, (uint64_t)q + r.below(1000) * 12 + (r.chance(0.5) ? 0 : r.below(12)), r.chance(0.4), inj, desc);
+    inj.set("id", "m" + std::to_string(q + 1));
+    p.ops.push(inj);
+    if (r.chance(0.3)) p.ops.push(Json::obj().set("op", "yield").set("n", (long long)r.range(1, 40)));
+  }
+  int nf = (int)r.range(0, 3);
+  for (int q = 0; q < nf; q++) {
+    Fault f; f.actor = "qmail-queue"; f.call = r.chance(0.5) ? C_ANY : r.pick(std::vector<CallId>{C_WRITE, C_READ, C_FSYNC, C_LINK, C_OPEN, C_UNLINK});
+    f.nth = (int)r.range(1, f.call == C_ANY ? 80 : 15);
+    int kk = (int)r.below(7);
+    f.kind = kk == 0 ? "kill" : kk == 1 ? "crash" : kk == 2 ? "short" : kk == 3 ? "signal" : kk == 4 ? "eintr" : "error";
+    f.err = r.pick(std::vector<int>{EIO, ENOSPC, EDQUOT}); f.arg = kk == 3 ? 14 : (int64_t)r.range(1, 40); f.image = r.pick(std::vector<std::string>{"worst", "best", "random"});
+    if (f.kind == "eintr" && f.call == C_ANY) f.call = r.chance(0.5) ? C_READ : C_WRITE;
+    p.faults.push_back(f);
+  }
+  p.ops.push(Json::obj().set("op", "settle").set("max_s", 20000));
+  p.ops.push(Json::obj().set("op", "boot")); p.ops.push(Json::obj().set("op", "settle").set("max_s", 20000));
+  p.label = "random injectors=" + std::to_string(ninj) + " faults=" + std::to_string(nf);
+  return true;
+}
+
+static RegisterProperty reg_c01(PropertyDef{
+    "C01", "Q", "fault_enumeration", "deterministic simulation with fault enumeration: every system-call site of qmail-queue x {error, kill, machine crash (worst and random image), SIGALRM, short I/O}, allocation failures, plus seeded multi-fault plans; publication invariant on crash images", gen_c01,
+    "for each sampled input (body sizes straddling the 256/2048/8192-byte buffers; envelopes valid, over-long 1001-1004, wrong letters, unterminated, truncated, empty) one fault-free run and one run per (call site 1..44) x (I/O error, process kill, machine crash keeping nothing unsynced, machine crash with random torn image, SIGALRM, short transfer), 8 allocation failures and 7 double faults; "
+    "then seeded random plans with 1-3 concurrent injectors, a live daemon and 0-3 faults. distinct = distinct trace hashes (a fault that never fires leaves the fault-free trace and is not counted twice)",
+    q_real(), {"message/envelope feeders (pre-filled pipes)", "spawner stubs when the daemon is booted"}, q_assume(), "n/a (per-injection verdicts)", 3400, 170000});
+
+// ------------------------------------------------------------------------------------------------ C02: queue states
+static bool gen_c02(uint64_t seed, const std::string &tier, uint64_t i, Plan &p) {
+  (void)tier;
+  p = Plan(); p.property = "C02"; p.world = "Q"; p.seed = mix64(mix64(seed, 0xC02), i);
+  Rng r(p.seed);
+  base_knobs(r, p, false);
+  if (r.chance(0.5)) p.knobs.set("ino_policy", 1);   // maximal recycling of inode numbers
+  p.knobs.set("oracles", oracle_list({"c02"}));
+  Json conf = Json::obj(); conf.set("queuelifetime", (long long)r.pick(std::vector<int64_t>{0, 100, 100000})); p.knobs.set("conf", conf);
+  // leftovers of an earlier life
+  int npl = (int)r.below(5);
+  for (int q = 0; q < npl; q++) {
+    Json pl = Json::obj(); pl.set("op", "plant").set("state", r.pick(std::vector<std::string>{"S2", "S3", "S4", "S5", "S5"}));
+    pl.set("age", (long long)r.pick(std::vector<int64_t>{0, 3600, 86400, 129599, 129600, 129601, 200000}));
+    if (r.chance(0.3)) pl.set("drop_intd", true); if (r.chance(0.3)) pl.set("stale_info", true);
+    Json rc = Json::arr(); int nr = (int)r.range(1, 3); for (int x = 0; x < nr; x++) rc.push("p" + std::to_string(q) + "x" + std::to_string(x) + (r.chance(0.5) ? "@l.example" : "@r.example")); pl.set("rcpts", rc).set("done", (long long)r.below(2));
+    p.ops.push(pl);
+  }
+  bool booted = r.chance(0.85);
+  if (booted) p.ops.push(Json::obj().set("op", "boot"));
+  int ninj = (int)r.range(1, 3); int rid = 0;
+  auto nap = [&]() { int c = (int)r.below(4); if (c == 0) p.ops.push(Json::obj().set("op", "yield").set("n", (long long)r.range(1, 300))); else if (c == 1) p.ops.push(Json::obj().set("op", "sleep").set("s", (long long)r.pick(std::vector<int64_t>{1, 100, 1500, 90000, 130000, 160000}))); };
+  for (int q = 0; q < ninj; q++) {
+    Json inj; std::string desc; c01_input(p.seed, r.below(50) * 12 + (r.chance(0.6) ? 0 : r.below(12)), r.chance(0.7), inj, desc);
+    inj.set("id", "m" + std::to_string(q + 1));
+    // unique recipients and simple outcome scripts so deliveries make progress
+    Json rc = Json::arr(); int nr = (int)r.range(1, 3); std::vector<std::string> rs;
+    for (int x = 0; x < nr; x++) { std::string a = (r.chance(0.5) ? "l" : "r") + std::to_string(++rid); a += a[0] == 'l' ? "@l.example" : "@r.example"; rs.push_back(a); rc.push(a);
+      Json sc = Json::obj(); sc.set("op", "script").set("rcpt", a); Json at = Json::arr(); int na = (int)r.below(3);
+      for (int y = 0; y < na; y++) at.push(Json::obj().set("v", r.chance(0.6) ? "Z" : "D").set("text", "x").set("lat", (long long)r.below(30)));
+      sc.set("attempts", at); p.ops.push(sc); }
+    if (inj.gets("env_raw") == mk_env(inj.gets("sender"), {}) || r.chance(0.7)) { inj.set("rcpts", rc); inj.set("env_raw", mk_env(inj.gets("sender"), rs)); }
+    p.ops.push(inj); nap();
+  }
+  if (r.chance(0.25)) { nap(); p.ops.push(Json::obj().set("op", "second_send")); }
+  // disturbances: crashes of anyone at any yield point, stalls of injectors across the collection horizon
+  int nd = (int)r.below(4);
+  for (int q = 0; q < nd; q++) {
+    Fault f; int who = (int)r.below(10);
+    f.actor = who < 4 ? "qmail-queue" : who < 8 ? "qmail-send" : "qmail-clean"; f.call = C_ANY; f.nth = (int)r.range(1, who < 4 ? 40 : 500);
+    int kk = (int)r.below(10);
+    if (kk < 3) f.kind = "kill"; else if (kk < 7) { f.kind = "crash"; f.image = r.pick(std::vector<std::string>{"worst", "best", "random"}); }
+    else if (kk < 9 && who < 4) { f.kind = "stall"; f.arg = r.pick(std::vector<int64_t>{10, 80000, 86399, 86401, 129500, 130000, 140000, 300000}); }
+    else { f.kind = "error"; f.err = EIO; }
+    p.faults.push_back(f);
+  }
+  p.ops.push(Json::obj().set("op", "settle").set("max_s", 400000));
+  for (int q = 0; q < 2; q++) { p.ops.push(Json::obj().set("op", "boot")); if (r.chance(0.5)) p.ops.push(Json::obj().set("op", "sleep").set("s", (long long)r.pick(std::vector<int64_t>{76431, 129601, 300000}))); p.ops.push(Json::obj().set("op", "settle").set("max_s", 400000)); }
+  p.knobs.set("max_sim_s", 4000000);
+  p.label = "planted=" + std::to_string(npl) + " injectors=" + std::to_string(ninj) + " disturbances=" + std::to_string(nd);
+  return true;
+}
+
+static RegisterProperty reg_c02(PropertyDef{
+    "C02", "Q", "exploration", "deterministic simulation: seeded/PCT interleavings of 1-3 qmail-queue with qmail-send+qmail-clean at system-call granularity, crashes with restart, stalls across the 24h/36h horizons; state-pattern invariant after every queue mutation", gen_c02,
+    "plan i = f(VERIF_SEED, i): 0-4 planted leftovers (S2..S5, ages around 36 h), 1-3 concurrent injectors (valid and aborting), optional second daemon, 0-3 disturbances (kill / machine crash / multi-hour stall / I/O error at a random call of an injector, the daemon or the cleaner), inode-number recycling policies; "
+    "after every link/unlink/create/rename in the queue the entry must be in S1-S5, name==inode, numbers unshared; non-trivial = a delivery command was issued; distinct = distinct (choice stream, trace) hashes",
+    q_real(), q_stubs(), q_assume(), "hash over messages of (phase, #pending, #done, accepted) at end of run", 1500, 80000});
+
+}  // namespace sim
